@@ -364,10 +364,11 @@ func (c *Ctx) minsJSON() []map[string]any {
 }
 
 func short(s string, n int) string {
-	if len(s) <= n {
+	r := []rune(s)
+	if len(r) <= n {
 		return s
 	}
-	return s[:n-1] + "…"
+	return string(r[:n-1]) + "…"
 }
 
 func maxInt(a, b int) int {
